@@ -459,7 +459,8 @@ fn cuts_slp(beh: &Beh, built: &Built, stride: usize, deadline: Duration, sink: &
 	// first Game End event on: Game End, its duplicate, the metadata element with all its keys and values, the closing
 	// braces); strided in between
 	let first_end = beh.hist.iter().position(|e| e.k == "ge").and_then(|i| built.ev_offs.get(i).copied()).unwrap_or(n);
-	let head_to = built.raw_start + 40;
+	// (the head: through the payload table and the first bytes of Game Start)
+	let head_to = built.events_start.saturating_sub(built.start_block.len()) + 12;
 	for cut in 0..n {
 		if !(cut % stride == 0 || cut < head_to || cut + 8 >= first_end) {
 			continue;
